@@ -151,6 +151,9 @@ pub struct SessInfo {
     /// true while the session carries client work (from first tagged message until Z(I))
     pub busy: AtomicBool,
     pub busy_since: AtomicU64,
+    /// a message whose header has arrived but whose body is still incomplete:
+    /// (type, declared body length, body bytes received so far)
+    pub partial: Mutex<Option<(u8, usize, Vec<u8>)>>,
 }
 
 fn set_linger0(s: &TcpStream) -> std::io::Result<()> {
@@ -441,6 +444,7 @@ impl Session {
             sock: Mutex::new(stream.try_clone().ok()),
             running: Mutex::new(None),
             cur_client: Mutex::new(None),
+            partial: Mutex::new(None),
             busy: AtomicBool::new(false),
             busy_since: AtomicU64::new(0),
         });
@@ -700,7 +704,7 @@ impl Session {
     fn main_loop(&mut self) -> String {
         self.stream.set_read_timeout(None).ok();
         loop {
-            let m = match proto::read_msg(&mut self.stream, 256 << 20) {
+            let m = match self.read_msg_tracking_partial(256 << 20) {
                 Ok(Some(m)) => m,
                 Ok(None) => return "eof".into(),
                 Err(e) => return format!("read-error: {}", e.kind()),
@@ -717,6 +721,50 @@ impl Session {
                 Flow::Close(how) => return how,
             }
         }
+    }
+
+    /// Like `proto::read_msg`, but a body that arrives in pieces is visible to the harness while it
+    /// is incomplete (`SessInfo::partial`): a request torn by the sender never completes, and would
+    /// otherwise leave no trace in the event log.
+    fn read_msg_tracking_partial(&mut self, max_len: usize) -> std::io::Result<Option<Msg>> {
+        use std::io::Read;
+        let mut hdr = [0u8; 5];
+        let mut got = 0;
+        while got < 5 {
+            let n = self.stream.read(&mut hdr[got..])?;
+            if n == 0 {
+                if got == 0 {
+                    return Ok(None);
+                }
+                return Err(std::io::Error::new(std::io::ErrorKind::UnexpectedEof, "eof inside message header"));
+            }
+            got += n;
+        }
+        let len = u32::from_be_bytes([hdr[1], hdr[2], hdr[3], hdr[4]]) as usize;
+        if len < 4 || len - 4 > max_len {
+            return Err(std::io::Error::new(std::io::ErrorKind::InvalidData, format!("bad message length {} for type {:?}", len, hdr[0] as char)));
+        }
+        let want = len - 4;
+        if want <= 65536 {
+            let mut body = vec![0u8; want];
+            self.stream.read_exact(&mut body)?;
+            return Ok(Some(Msg { typ: hdr[0], body }));
+        }
+        *self.info.partial.lock().unwrap() = Some((hdr[0], want, Vec::with_capacity(want.min(32 << 20))));
+        let mut chunk = vec![0u8; 65536];
+        let mut have = 0usize;
+        while have < want {
+            let n = self.stream.read(&mut chunk[..(want - have).min(65536)])?;
+            if n == 0 {
+                return Err(std::io::Error::new(std::io::ErrorKind::UnexpectedEof, "eof inside message body"));
+            }
+            have += n;
+            if let Some(p) = self.info.partial.lock().unwrap().as_mut() {
+                p.2.extend_from_slice(&chunk[..n]);
+            }
+        }
+        let body = self.info.partial.lock().unwrap().take().map(|p| p.2).unwrap_or_default();
+        Ok(Some(Msg { typ: hdr[0], body }))
     }
 
     fn is_pooler_query(&self, sqltext: &str) -> bool {
